@@ -93,9 +93,10 @@ def class_loaded_by_loader(chk: Check, rule: str = 'PROV-loader-precedence') -> 
     """Savable.load asks the loader of THIS load -- the object _ensure_object_loader put into the context -- for the class, every time: a class remembered from an
     earlier load (keyed by the loader's type, say) was resolved by whichever loader instance came first."""
     prog = chk.prog
-    ld = prog.func('persistence.Savable.load')
+    ld = prog.view(prog.func('persistence.Savable.load'))   # (a local standing for ``load_context.loader`` is read through)
     lo = [c for c in calls_in_func(ld, 'load_object')]
-    ok = len(lo) == 1 and norm(lo[0].func) == 'load_context.loader.load_object' and any(last_name(c) == '_ensure_object_loader' for c in calls_in_func(ld))
+    from ..rules import Resolver as _Rl
+    ok = len(lo) == 1 and norm(_Rl(ld).expand(lo[0].func)) == 'load_context.loader.load_object' and any(last_name(c) == '_ensure_object_loader' for c in calls_in_func(ld))
     # ... on EVERY path: the class whose recreate_from is called is what that call returned -- not one kept from an earlier load (by identifier, by loader type ...)
     if ok:
         from ..decisions import paths_under, value_on_path
@@ -348,7 +349,17 @@ def run(chk: Check) -> None:
             v = vals[0] if len(vals) == 1 else None
         ident = norm(v) if v is not None else None
     records_class = ident is not None and '.__class__' in ident or (ident is not None and 'type(' in ident)
-    ok = len(rec) == 1 and all(('notnone', f'{sv.params[1]}.loader') in f for _, f in fs.site_facts(rec[0]))
+    # decision table over "the save context has a loader": recorded on every way out when it has one, on none when it has not (the test may be made on the
+    # attribute or on a local that took its value)
+    from ..decisions import paths_under as _pu_s
+    LK = f'{sv.params[1]}.loader is None'
+    rec_nodes = {m.id for c_ in rec for m in fs.cfg.nodes_containing(c_)}
+    try:
+        with_l = [p_ for p_ in _pu_s(fs, {LK: False}, frozen=[sv.params[1]]) if p_[-1] is fs.cfg.exit]
+        without = [p_ for p_ in _pu_s(fs, {LK: True}, frozen=[sv.params[1]]) if p_[-1] is fs.cfg.exit]
+        ok = len(rec) == 1 and bool(with_l) and bool(without) and all(any(m.id in rec_nodes for m in p_) for p_ in with_l) and not any(m.id in rec_nodes for p_ in without for m in p_)
+    except RuntimeError:
+        ok = False
     chk.ob('PROV-loader-precedence', sv, ok, 'save() records the loader in the saved state exactly when the save context has one', node=rec[0] if rec else sv.node, kind='recorded-iff-custom')
     uses = [n for n in ast.walk(eol.node) if isinstance(n, ast.Assign) and norm(n.targets[0]) == 'loader' and ('loader_identifier' in _R(eol).text(n.value) or 'get_custom_meta' in _R(eol).text(n.value))]
     if uses and ident is not None:
